@@ -74,6 +74,23 @@ func (c *FnCtx) mustClause(cl *Clause, env *Env) Term {
 
 func constantString(k *ssa.Const) string { return constant.StringVal(k.Value) }
 
+// localGhost: a ghost variable of the function under verification.
+func (c *FnCtx) localGhost(name string) (string, types.Type, bool) {
+	if c.spec == nil {
+		return "", nil, false
+	}
+	for _, g := range c.spec.GhostVars {
+		if g.Name == name {
+			ty, err := c.g.parseSpecType(g.Type)
+			if err != nil {
+				c.specFail("ghostvar %s: %v", name, err)
+			}
+			return c.comp("lghost$"+name, c.sortOf(ty)), ty, true
+		}
+	}
+	return "", nil, false
+}
+
 func (c *FnCtx) ghostGlobal(name string) (string, types.Type, bool) {
 	for _, g := range c.g.specs.Globals {
 		if g.Name == name {
@@ -114,6 +131,9 @@ func (c *FnCtx) resolveId(name string, env *Env) (Term, types.Type) {
 	}
 	if tv, ok := c.ghostEnv[name]; ok {
 		return tv.T, tv.Ty
+	}
+	if comp, ty, ok := c.localGhost(name); ok {
+		return c.get(env.st, comp), ty
 	}
 	if comp, ty, ok := c.ghostGlobal(name); ok {
 		return c.get(env.st, comp), ty
